@@ -347,7 +347,7 @@ def run(ctx):
     enum_n = max(1, cl["enum:sat"] + cl["enum:unsat"])
     ctx.floor("UNSAT share among enumerable programs", round(cl["enum:unsat"] / enum_n, 3), 0.15)
     ctx.floor("programs with a constant-only or empty aggregate",
-              round(cl["has-const-or-empty-aggregate"] / max(1, ctx.stats.evaluations), 3), 0.10)
+              round(cl["has-const-or-empty-aggregate"] / max(1, ctx.stats.evaluations), 3), 0.06)
     ctx.floor("histories with solve/declare/solve",
               round(cl["history:solve-declare-solve"] / max(1, cl["history"]), 3), 0.30)
     allops = ["not", "and", "or", "xor", "iff", "neq", "imp", "eq", "ne", "le", "lt", "ge", "gt",
